@@ -69,6 +69,24 @@ def r1_optional_fields(R) -> None:
         R.check(ok, q, f'optional-restored:{fld}', f'Symbol.{fld} (Optional): a missing value comes back as None',
                 f'Symbol.{fld} is Optional but dataframe_to_symbols has no not-a-value -> None conversion for it: pandas stores None as NaN, '
                 f'so the round trip returns {fld}=nan', where=fi.where)
+    # a field is set to None only because *its own value* is missing, never because of the symbol's type
+    for n in ast.walk(fi.node):
+        if isinstance(n, ast.Assign) and isinstance(n.targets[0], ast.Subscript) and text(n.targets[0].value) == 'entry' and is_const(n.value, None):
+            key = text(n.targets[0].slice)
+            # enclosing if tests
+            par = {}
+            for x in ast.walk(fi.node):
+                for c in ast.iter_child_nodes(x):
+                    par[id(c)] = x
+            cur, conds = par.get(id(n)), []
+            while cur is not None:
+                if isinstance(cur, ast.If):
+                    conds.append(text(cur.test))
+                cur = par.get(id(cur))
+            own = any(f'entry[{key}]' in c for c in conds)
+            R.check(own, q, f'none-by-value:{key}:' + ';'.join(conds)[:60], f'entry[{key}] becomes None only when its own value is missing',
+                    f'`{text(n)}` under {conds}: the field is cleared because of something other than its own value (e.g. the symbol type), so a symbol that '
+                    f'carries it (a verbatim block has equation and code) loses it', where=fi.where)
     # type is restored through the enum
     ok = any(isinstance(n, ast.Assign) and text(n.targets[0]) == "entry['type']" and is_call(n.value, 'Type') for n in ast.walk(fi.node))
     R.check(ok, q, 'type-restored', 'the type column is converted back to the Type enum', "`entry['type'] = Type(entry['type'])` not found", where=fi.where)
@@ -178,6 +196,10 @@ def r4_from_dataframe(R) -> None:
     dcs = [k.value for k in c.keywords if k.arg is None and isinstance(k.value, ast.DictComp)] if isinstance(c, ast.Call) else []
     ok = len(dcs) == 1 and text(dcs[0].generators[0].iter) == 'data.items()' and text(dcs[0].value).endswith('.values') and text(dcs[0].key) == text(dcs[0].generators[0].target.elts[0])
     R.check(ok, q, 'columns', "each column's values are passed under the column name", 'columns are not passed as {name: column.values}', where=f.where(rets[0]))
+    # the frame is used as given (no re-ordering / re-binding before the span and the values are taken)
+    rebinds = f.assigns_to('data')
+    R.check(not rebinds, q, 'frame-as-given:' + (text(rebinds[0].ast)[:50] if rebinds else ''), 'span and values are taken from the frame as given',
+            f'`{text(rebinds[0].ast)[:60] if rebinds else ""}` re-binds the frame before use: rows (periods) may be re-ordered or dropped', where=f.fi.where)
     ds = f.assigns_to('index')
     first = [d for d in ds if text(d.ast.value) == 'data.index']
     conv = [d for d in ds if text(d.ast.value) == 'list(index)']
